@@ -187,7 +187,7 @@ ReadItems(n, items, i, vars, ST, path) ==
 \* the tail of readLinkedFieldData, once `value` is known
 ReadLinkedValue(n, value, vars, ST, path) ==
   CASE value.t = "links" -> ReadItems(n, value.items, 1, vars, ST, path)
-    [] value.t = "undef" -> Miss("No link for", path, <<n.fieldName>>)           \* no missingFieldHandler
+    [] value.t = "undef" -> Miss("No link for", path, ParentKey(n, vars))        \* no missingFieldHandler
     [] value.t = "null" -> Ok({})
     [] value.t = "link" -> IF IsPointerNode(n) THEN ReadPointerTarget(value, vars, ST, path)
                            ELSE ReadData(n.selections, value, vars, ST, path)
@@ -283,8 +283,9 @@ RootTypeOf(op) == IF op.kind = "mutation" THEN "Mutation" ELSE "Query"
 Responses(op, M) == {[t |-> "obj", f |-> g] : g \in ObjChoices(op.selections, RootTypeOf(op), <<>>, M, 0)}
 
 \* ---- variable valuations: a non-null variable has a value of its own; a nullable one is also tried as null/absent ----
-NullableVars(op) == {op.vars[i].name : i \in {j \in DOMAIN op.vars : op.vars[j].type.k # "nonnull"}}
-Valuation(op, nulls) == [n \in {op.vars[i].name : i \in DOMAIN op.vars} \ nulls |-> S("$" \o n)]
+\* (E.vars: the variables the entrypoint's client field DECLARES — what a caller may pass —, not the ones the operation text declares)
+NullableVars(E) == {E.vars[i].name : i \in {j \in DOMAIN E.vars : E.vars[j].type.k # "nonnull"}}
+Valuation(E, nulls) == [n \in {E.vars[i].name : i \in DOMAIN E.vars} \ nulls |-> S("$" \o n)]
 
 \* ---- consistent responses ----------------------------------------------------------------------------------------
 \* The store identifies a field of a record by field name + argument VALUES.  Two differently aliased selections of
